@@ -7,19 +7,19 @@ ABORTS = ["abortnoentity", "abortnostorage", "abortroot", "discard"]
 # Which trace lines each property's correspondence reads (first token of the line). 'top', 'end', 'panic' and the
 # harness markers '<timeout>'/'<crash' are always kept.
 PROJ = {
-    "C01": ["m+", "m-", "applied", "body", "qt", "send", ("wide", 1), ("huge", 0.15)],
+    "C01": ["m+", "m-", "applied", "body", "qt", "send"],
     "C02": RUNNER + ["body", "qs"],
-    "C03": ["enter", "body", "accessor-mismatch", "m+", "m-", "send", ("wide", 1), ("huge", 0.15), ("burst", 1)],
-    "C04": ["enter", "exit", "body", "accessor-mismatch", "bodyend", "m+", "m-", ("huge", 0.15)],
+    "C03": ["enter", "body", "accessor-mismatch", "m+", "m-", "send"],
+    "C04": ["enter", "exit", "body", "accessor-mismatch", "bodyend", "m+", "m-"],
     "C05": ["send", "drop", "body", "qx", "m+", "m-", "applied"] + ABORTS,
-    "C06": ["m+", "m-", "applied", "body", "qt", ("wide", 1)],
-    "C07": ["qa", "canary", "qt", "m+", "m-", "dropped", ("wide", 1)],
+    "C06": ["m+", "m-", "applied", "body", "qt"],
+    "C07": ["qa", "canary", "qt", "m+", "m-", "dropped"],
     "C08": ["applied", "body", "accessor-mismatch", "m+", "m-", "qk", "qa"],
     "C09": RUNNER + ["m+", "m-", "body", "bodyend"],
     "C10": ["qa", "canary"],
-    "C11": ["qs", "qx", ("burst", 1)],
-    "C12": ["body", "m+", "m-", "send", ("wide", 1), ("burst", 1)],
-    "C13": ["body", ("huge", 0.15)],
+    "C11": ["qs", "qx"],
+    "C12": ["body", "m+", "m-", "send"],
+    "C13": ["body"],
     "C14": ["ret", "body", "m+", "m-", "qc", "qr", "applied"],
     "C15": ["body", "qa", "qt", "canary"],
     "C16": ["body", "ql", "qt", "qa"],
@@ -41,7 +41,7 @@ PROFILES = {
     "C10": [("signals", 3), ("lifetime", 1), ("frames", 1), ("sigrace", 1)],
     "C11": [("recursion", 2), ("mix", 1), ("lifetime", 1), ("removal", 1), ("dsp", 1), ("removal2", 1), ("cascade", 2), ("frames", 1), ("burst", 1)],
     "C12": [("recursion", 3), ("deeprec", 1), ("visibility", 2), ("mix", 1), ("ewr", 1), ("dsp", 1), ("wide", 1), ("burst", 1)],
-    "C13": [("recursion", 2), ("deeprec", 1), ("appreact", 2), ("mix", 1), ("lifetime", 1), ("huge", 0.15)],
+    "C13": [("recursion", 2), ("deeprec", 1), ("appreact", 2), ("mix", 1), ("lifetime", 1), ("huge", 0.15), ("once2", 0.6)],
     "C14": [("access2", 3), ("access", 2), ("mix", 1)],
     "C15": [("once2", 4), ("once", 1), ("sharedkey", 1), ("mix", 1)],
     "C16": [("ewr", 5), ("wr", 1), ("mix", 1)],
